@@ -47,9 +47,9 @@ PROFILES = {
     "C18": ("mixed", "transport", "buffers", "classic"),
     "C01": ("mixed", "full", "buffers", "stoch"),
     "C02": ("full", "stoch", "mixed", "full"),
-    "C03": ("mixed", "buffers", "race", "full", "race"),
-    "C05": ("mixed", "buffers", "full", "stoch", "race"),
-    "C07": ("transport", "buffers", "full", "stoch", "race"),
+    "C03": ("mixed", "buffers", "race", "full", "race", "multibuf"),
+    "C05": ("mixed", "buffers", "full", "stoch", "race", "multibuf"),
+    "C07": ("transport", "buffers", "full", "stoch", "race", "multibuf"),
     "C08": ("buffers", "race", "full", "race"),
     "C09": ("full", "stoch", "full", "mixed"),
     "C10": ("full", "stoch", "full", "full"),
@@ -77,7 +77,8 @@ def _worker(args):
     tracer, eps = batch.run_batch(seed, n, profiles, tracer=tracer, custom_buffers_p=custom_p,
                                   env_hook=hook, ps=extra.get("ps", (0.1, 0.5, 0.9, 1.0)),
                                   trunc_p=extra.get("trunc_p", 0.3), gen_kw=extra.get("gen_kw"),
-                                  phased_p=extra.get("phased_p", 0.0), early_p=extra.get("early_p", 0.6))
+                                  phased_p=extra.get("phased_p", 0.0), early_p=extra.get("early_p", 0.6),
+                                  big_p=extra.get("big_p", 0.0))
     drv = jsl.Driver()
     out = {"episodes": len(eps), "records": len(tracer.records), "violations": [], "disagreements": [],
            "ends": collections.Counter(e.end for e in eps), "features": collections.Counter(),
@@ -305,9 +306,11 @@ def outcome_facts(ep, rec, tracer, k):
     return f
 
 
-def sm_check(ctx, n_quick=160, n_thorough=1500, custom_p=0.15, extra=None, workers_quick=4):
+def sm_check(ctx, n_quick=160, n_thorough=6000, custom_p=0.15, extra=None, workers_quick=4):
     prop = ctx.prop
     extra = dict(extra or {})
+    if not ctx.quick():
+        extra.setdefault("big_p", 0.15)
     want_events = bool(EVENT_CLAUSES.get(prop)) or extra.get("want_events", False)
     ncpu = os.cpu_count() or 4
     if ctx.quick():
@@ -509,11 +512,36 @@ def _merge_hook(ctx, prefix):
             ctx.coverage[prefix + k] = ctx.coverage.get(prefix + k, 0) + n
 
 
+def witness_shift(ctx):
+    """The witness of the theorem C12_shift_refuted (coq/SM/ExampleShift.v) replayed on the implementation."""
+    import mk_example_shift as M
+    import jsl
+    import tocoq
+    w = json.loads((ctx.verif / "harness" / "example_shift.json").read_text())
+    cfg = jsl.with_cfg(jsl.load_config(), early=True, trunc_active=False)
+    t0, e0, env0 = M.run(w["dsl"], cfg, 0, w["actions"])
+    t1, e1, env1 = M.run(w["dsl"], cfg, w["K"], w["actions"])
+    c0 = env0.state.state.time.time if env0 is not None else None
+    c1 = env1.state.state.time.time if env1 is not None else None
+    txt = (ctx.verif / "coq" / "SM" / "ExampleShift.v").read_text()
+    same = bool(t0.records and t1.records) and \
+        ("Definition sh_inst : inst := %s." % tocoq.inst(t0.records[0].codec.inst_sx)) in txt and \
+        ("Definition sh_init0 : state := %s." % tocoq.state(t0.records[0].pre)) in txt and \
+        ("Definition sh_initK : state := %s." % tocoq.state(t1.records[0].pre)) in txt
+    ctx.coverage["refutation_witness_shift"] = {"theorem": "C12_shift_refuted", "clocks": [c0, c1],
+                                                "theorem_clocks": [w["clock0"], w["clockK"]],
+                                                "same_instance_and_initial_states_as_theorem": same}
+    if [c0, c1] != [w["clock0"], w["clockK"]] or not same:
+        ctx.broken_correspondence.append("the witness of C12_shift_refuted (SM/ExampleShift.v) no longer matches the "
+                                         "implementation: clocks %s vs %s, same input=%s" % ([c0, c1], [w["clock0"], w["clockK"]], same))
+
+
 def c12(ctx):
     outs = sm_check(ctx, extra={"post": "c12_shift"})
     keep_only(ctx, lambda v: not v["kind"].startswith("outcome:"))
     ctx.coverage["shift_pairs"] = sum(o.get("shift_pairs", 0) for o in outs)
     ctx.coverage["shift_pairs_with_outages"] = sum(o.get("shift_pairs_with_outages", 0) for o in outs)
+    witness_shift(ctx)
 
 
 def c04(ctx):
@@ -542,7 +570,13 @@ def c18(ctx):
     _merge_hook(ctx, "c18_")
 
 
+def c09(ctx):
+    c_generic(ctx)
+    import props_other
+    props_other.c09_compile_stage(ctx)
+
+
 TABLE = {
     "C01": c_generic, "C02": c_generic, "C03": c_generic, "C05": c05, "C07": c_generic, "C08": c_generic,
-    "C09": c_generic, "C10": c_generic, "C11": c11, "C12": c12, "C20": c20, "C04": c04, "C18": c18,
+    "C09": c09, "C10": c_generic, "C11": c11, "C12": c12, "C20": c20, "C04": c04, "C18": c18,
 }
